@@ -40,8 +40,12 @@ func (fc *FnCtx) callEffects(cc *ssa.CallCommon) effects {
 		switch b.Name() {
 		case "append", "copy":
 			eff.allocs = true
-			for _, hs := range heapSorts {
-				eff.sorts[hs] = true
+			if st, ok := cc.Args[0].Type().Underlying().(*types.Slice); ok {
+				fc.sortsOfType(st.Elem(), eff.sorts)
+			} else {
+				for _, hs := range heapSorts {
+					eff.sorts[hs] = true
+				}
 			}
 		case "delete":
 			eff.sorts["mdom"] = true
@@ -167,12 +171,45 @@ func (fc *FnCtx) call(ins ssa.Instruction, cc *ssa.CallCommon) {
 			names = append(names, p.Name())
 			typs = append(typs, p.Type())
 		}
+		// closure call: captured variables are visible to the contract by name
+		if mc, ok := cc.Value.(*ssa.MakeClosure); ok {
+			for i, fv := range callee.FreeVars {
+				pt, isPtr := fv.Type().Underlying().(*types.Pointer)
+				bp := fc.val(mc.Bindings[i])
+				if isPtr && bp.K == KPtr {
+					names = append(names, fv.Name())
+					typs = append(typs, pt.Elem())
+					args = append(args, fc.load(fc.cur, pt.Elem(), bp.Obj(), bp.Off()))
+					names = append(names, "&"+fv.Name())
+					typs = append(typs, fv.Type())
+					args = append(args, bp)
+				}
+			}
+		}
 		setRes(fc.applyContract(c, relName(callee), names, typs, args, callee.Signature.Results(), pos, callee))
 		return
 	}
 	if m, ok := libModels[fullName(callee)]; ok {
 		fc.usedAssumed["lib:"+fullName(callee)] = true
 		setRes(m.fn(fc, cc, args, pos, resVal))
+		return
+	}
+	if fc.eng.isRepoFunc(callee) && fc.eng.heapPure(callee) {
+		// helper without contract whose body provably writes only objects it allocates itself
+		fc.calledRepo[callee] = true
+		for i, p := range callee.Params {
+			if i < len(args) {
+				if t := nonNilTerm(args[i], p.Type()); !t.IsZero() {
+					fc.oblige("pre", relName(callee)+": "+p.Name()+" != nil", pos, t)
+				}
+			}
+		}
+		pre := fc.cur.clone()
+		nn := fc.freshConst("next_call", SInt)
+		fc.assume(Ge(nn, fc.cur.next))
+		fc.cur.next = nn
+		fc.havocFresh(fc.cur, pre)
+		setRes(fc.freshResult(callee.Signature.Results()))
 		return
 	}
 	if fc.eng.isRepoFunc(callee) {
@@ -284,7 +321,7 @@ func (fc *FnCtx) applyContract(c *Contract, cname string, names []string, typs [
 	}
 	site := fc.desc(pos, cname)
 	for i, n := range names {
-		if i < len(args) && !c.isNilable(n) {
+		if i < len(args) && !c.isNilable(n) && !strings.HasPrefix(n, "&") {
 			if t := nonNilTerm(args[i], typs[i]); !t.IsZero() {
 				fc.oblige("pre", cname+": "+n+" != nil", pos, t)
 			}
@@ -468,7 +505,7 @@ func frameFormula(pre, post *State, regs []region) Term {
 			continue
 		}
 		body := Implies(guard, Eq(Select(Select(post.heap[hs], o), f), Select(Select(pre.heap[hs], o), f)))
-		cs = append(cs, Term{fmt.Sprintf("(forall ((o!fr Int) (f!fr Int)) %s)", body.S), SBool})
+		cs = append(cs, Term{fmt.Sprintf("(forall ((o!fr Int) (f!fr Int)) (! %s :pattern (%s)))", body.S, Select(Select(post.heap[hs], o), f).S), SBool})
 	}
 	if pre.mdom.S != post.mdom.S || pre.mlen.S != post.mlen.S {
 		var wh []Term
@@ -513,13 +550,15 @@ func (fc *FnCtx) havocFresh(st, pre *State) {
 	st.mdom = fc.freshConst("mdomn", st.mdom.Sort)
 	st.mlen = fc.freshConst("mlenn", st.mlen.Sort)
 	o := Term{"o!fr", SInt}
-	var cs []Term
-	for _, hs := range heapSorts {
-		cs = append(cs, Eq(Select(st.heap[hs], o), Select(pre.heap[hs], o)))
+	one := func(a, b Term) {
+		body := Implies(Lt(o, pre.next), Eq(Select(a, o), Select(b, o)))
+		fc.assume(Term{fmt.Sprintf("(forall ((o!fr Int)) (! %s :pattern (%s)))", body.S, Select(a, o).S), SBool})
 	}
-	cs = append(cs, Eq(Select(st.mdom, o), Select(pre.mdom, o)), Eq(Select(st.mlen, o), Select(pre.mlen, o)))
-	body := Implies(Lt(o, pre.next), And(cs...))
-	fc.assume(Term{fmt.Sprintf("(forall ((o!fr Int)) %s)", body.S), SBool})
+	for _, hs := range heapSorts {
+		one(st.heap[hs], pre.heap[hs])
+	}
+	one(st.mdom, pre.mdom)
+	one(st.mlen, pre.mlen)
 }
 
 // funcFrame is the frame obligation of the function under verification at a return.
@@ -814,6 +853,12 @@ func (e *Engine) needApply(name string, args []Term, res Sort) {
 // preservesEqs: the cells of the object designated by expr (a pointer: its
 // pointee; a slice: its elements) are equal in states a and b.
 func (fc *FnCtx) preservesEqs(env *Env, expr string, a, b *State) (Term, error) {
+	// "refs x": only the integer/reference/string/bool cells (not byte contents)
+	refsOnly := false
+	if strings.HasPrefix(strings.TrimSpace(expr), "refs ") {
+		refsOnly = true
+		expr = strings.TrimPrefix(strings.TrimSpace(expr), "refs ")
+	}
 	sv, err := fc.specExpr(env, strings.TrimSpace(expr))
 	if err != nil {
 		return Term{}, err
@@ -833,6 +878,9 @@ func (fc *FnCtx) preservesEqs(env *Env, expr string, a, b *State) (Term, error) 
 		fc.sortsOfType(pt.Elem(), sorts)
 		for _, hs := range heapSorts {
 			if !sorts[hs] || a.heap[hs].S == b.heap[hs].S {
+				continue
+			}
+			if refsOnly && hs.IsBV() {
 				continue
 			}
 			for k := int64(0); k < n; k++ {
@@ -861,4 +909,93 @@ func (fc *FnCtx) preservesEqs(env *Env, expr string, a, b *State) (Term, error) 
 		return Term{}, fmt.Errorf("preserves: %q is neither pointer nor slice", expr)
 	}
 	return And(cs...), nil
+}
+
+// heapPure: a syntactic frame analysis. A function is heap-pure if every store
+// goes to an object it allocated itself (address derived from a local Alloc),
+// it updates no map it did not create, and it only calls heap-pure repository
+// functions, allocation-only builtins, or library models without write effects.
+func (e *Engine) heapPure(fn *ssa.Function) bool {
+	if e.pureMemo == nil {
+		e.pureMemo = map[*ssa.Function]int{}
+	}
+	switch e.pureMemo[fn] {
+	case 1:
+		return true
+	case 2, 3:
+		return false // impure, or in progress (recursion): assume impure
+	}
+	e.pureMemo[fn] = 3
+	ok := e.heapPureBody(fn)
+	if ok {
+		e.pureMemo[fn] = 1
+	} else {
+		e.pureMemo[fn] = 2
+	}
+	return ok
+}
+
+func (e *Engine) heapPureBody(fn *ssa.Function) bool {
+	if len(fn.Blocks) == 0 || len(fn.FreeVars) > 0 {
+		return false
+	}
+	localMap := map[ssa.Value]bool{}
+	for _, b := range fn.Blocks {
+		for _, ins := range b.Instrs {
+			switch x := ins.(type) {
+			case *ssa.MakeMap:
+				localMap[x] = true
+			case *ssa.Store:
+				base := addrBase(x.Addr)
+				if _, ok := base.(*ssa.Alloc); !ok {
+					return false
+				}
+			case *ssa.MapUpdate:
+				if !localMap[x.Map] {
+					return false
+				}
+			case *ssa.Go, *ssa.Defer, *ssa.Send, *ssa.Select, *ssa.Panic:
+				if _, isPanic := ins.(*ssa.Panic); !isPanic {
+					return false
+				}
+			case ssa.CallInstruction:
+				cc := x.Common()
+				if b, ok := cc.Value.(*ssa.Builtin); ok {
+					switch b.Name() {
+					case "len", "cap", "min", "max", "print", "println":
+					default:
+						return false // append/copy may write through their arguments
+					}
+					continue
+				}
+				if cc.IsInvoke() {
+					return false
+				}
+				callee, ok := cc.Value.(*ssa.Function)
+				if !ok {
+					return false
+				}
+				if e.isSpecFn(callee) {
+					continue
+				}
+				if c := e.contractFor(callee); c != nil {
+					if c.Pure || (c.HasMod && len(c.Modifies) == 0) {
+						continue
+					}
+					return false
+				}
+				if m, ok := libModels[fullName(callee)]; ok {
+					if !m.eff.all && len(m.eff.sorts) == 0 {
+						continue
+					}
+					return false
+				}
+				if e.isRepoFunc(callee) && e.heapPure(callee) {
+					continue
+				}
+				return false
+			}
+		}
+	}
+	return true
 }
